@@ -91,18 +91,21 @@ def run(R):
     R.assumptions = ["token-level model: sources and values are blank-separated tokens; alias names are plain words",
                      "the machine's result parsed without aliases is the oracle (metamorphic)"]
     if R.tier == "quick":
-        cases = gen(R, 2, 2, ["a", "b", "w"], ["a", "b", "w", "'a'", "x=1", ";"], "alias1")
-        cases += gen(R, 1, 3, ["a", "b", "w"], ["a", "b", "w", "'a'", "x=1", ";"], "alias1b")
-        cases += gen(R, 1, 3, ["a", "b", ";", "x=1", "if", "!"], ["a", "b", "w", "|", "!", "if", "then", "fi", ";"], "alias2")
-        cases += gen(R, 2, 3, ["a", "b", "c", "w"], ["a", "c", "w", ";"], "alias3", tables=TABLES3)
-        cases += gen(R, 1, 4, ["a", "b", "w"], ["a", "b", "w", "$(", ")"], "alias4")
-        cases += gen(R, 3, 9, ["a", "b", "w", "for", "case", "in"], ["a", "b", "w"], "alias5", tables=TABLES5, sources=SOURCES5)
+        jobs = [lambda: gen(R, 2, 2, ["a", "b", "w"], ["a", "b", "w", "'a'", "x=1", ";"], "alias1"),
+                lambda: gen(R, 1, 3, ["a", "b", "w"], ["a", "b", "w", "'a'", "x=1", ";"], "alias1b"),
+                lambda: gen(R, 1, 3, ["a", "b", ";", "x=1", "if", "!"], ["a", "b", "w", "|", "!", "if", "then", "fi", ";"], "alias2"),
+                lambda: gen(R, 2, 3, ["a", "b", "c", "w"], ["a", "c", "w", ";"], "alias3", tables=TABLES3),
+                lambda: gen(R, 1, 4, ["a", "b", "w"], ["a", "w", "$(", ")"], "alias4"),
+                lambda: gen(R, 3, 9, ["a", "b", "w", "for", "case", "in"], ["a", "b", "w"], "alias5", tables=TABLES5, sources=SOURCES5),
+                lambda: gen(R, 1, 4, ["a", "w"], ["a", "b", "w", "<", ";"], "alias6")]      # redirections in the command prefix
+        cases = [c for part in R.parallel(jobs) for c in part]
     else:
         cases = gen(R, 2, 3, ["a", "b", "w"], ["a", "b", "w", "'a'", "x=1", ";"], "alias1")
         cases += gen(R, 2, 3, ["a", "b", ";", "x=1", "if", "!"], ["a", "b", "w", "|", "!", "if", "then", "fi", ";"], "alias2")
         cases += gen(R, 2, 4, ["a", "b", "c", "w"], ["a", "c", "w", ";"], "alias3", tables=TABLES3)
         cases += gen(R, 1, 5, ["a", "b", "w"], ["a", "b", "w", "$(", ")"], "alias4")
         cases += gen(R, 3, 9, ["a", "b", "w", "for", "case", "in"], ["a", "b", "w"], "alias5", tables=TABLES5, sources=SOURCES5)
+        cases += gen(R, 2, 4, ["a", "w"], ["a", "b", "w", "<", ";"], "alias6")
     # probes of the known finding F-C17-third-word (the model says: not in command position, not replaced)
     for src in (["for", "x", "foo"], ["case", "x", "foo"]):
         cases.append(dict(vals={"foo": dict(val=["in", "a", ";", "do", "w", ";", "done"] if src[0] == "for" else ["in", "esac"], blank=False)},
